@@ -11,7 +11,6 @@ Arguments keyword_byte : simpl never.
 Arguments is_alphabetical : simpl never.
 Arguments byte_can_start_number : simpl never.
 Arguments byte_can_start_keyword : simpl never.
-Arguments prepend_at : simpl never.
 Arguments punct_type : simpl never.
 Arguments rng : simpl never.
 Arguments Z.mul : simpl never.
@@ -90,38 +89,34 @@ Qed.
 
 (* ---- scanString decomposes its input -------------------------------------------- *)
 
-Lemma scan_string_loop_split bs : forall esc skip after t r,
-  scan_string_loop bs esc skip after = (t, r) -> bs = t ++ r.
+Lemma scan_string_loop_split bs : forall esc t r,
+  scan_string_loop bs esc = (t, r) -> bs = t ++ r.
 Proof.
-  induction bs as [|b u IH]; intros esc skip after t r H.
+  induction bs as [|b u IH]; intros esc t r H.
   - simpl in H. inversion H. reflexivity.
   - cbn [scan_string_loop] in H.
-    assert (Htake : forall e s a, (let (t0, r') := scan_string_loop u e s a in (b :: t0, r')) = (t, r) ->
-                                  b :: u = t ++ r).
-    { intros e s a Ht. destruct (scan_string_loop u e s a) as [t0 r'] eqn:E.
+    assert (Htake : forall e, (let (t0, r') := scan_string_loop u e in (b :: t0, r')) = (t, r) ->
+                              b :: u = t ++ r).
+    { intros e Ht. destruct (scan_string_loop u e) as [t0 r'] eqn:E.
       inversion Ht; subst. simpl. f_equal. eapply IH. exact E. }
-    destruct skip as [|k].
-    + destruct (after && negb (Nat.eqb (prepend_at (b :: u)) 0)); [eapply Htake; exact H|].
-      destruct (after && rng 32 126 b); [eapply Htake; exact H|].
-      destruct (b =? 92); [eapply Htake; exact H|].
-      destruct (b =? 34).
-      { destruct esc; [eapply Htake; exact H|]. inversion H; subst. reflexivity. }
-      destruct (b <? 32); [inversion H; subst; reflexivity|].
-      destruct (negb (Nat.eqb (prepend_at (b :: u)) 0)); eapply Htake; exact H.
-    + eapply Htake. exact H.
+    destruct (b =? 92); [eapply Htake; exact H|].
+    destruct (b =? 34).
+    { destruct esc; [eapply Htake; exact H|]. inversion H; subst. reflexivity. }
+    destruct (b <? 32); [inversion H; subst; reflexivity|].
+    eapply Htake; exact H.
 Qed.
 
 Lemma scan_string_split bs t r : scan_string bs = (t, r) -> bs = t ++ r.
 Proof.
   unfold scan_string. destruct bs as [|q u]; intro H.
   - inversion H. reflexivity.
-  - destruct (scan_string_loop u false 0%nat false) as [t0 r'] eqn:E. inversion H; subst.
+  - destruct (scan_string_loop u false) as [t0 r'] eqn:E. inversion H; subst.
     simpl. f_equal. eapply scan_string_loop_split. exact E.
 Qed.
 
 Lemma scan_string_nonempty q u t r : scan_string (q :: u) = (t, r) -> exists t', t = q :: t'.
 Proof.
-  unfold scan_string. destruct (scan_string_loop u false 0%nat false) as [t0 r']. intro H.
+  unfold scan_string. destruct (scan_string_loop u false) as [t0 r']. intro H.
   inversion H; subst. eexists. reflexivity.
 Qed.
 
@@ -432,79 +427,53 @@ Proof.
   - rewrite <- (app_nil_r (b :: u)) at 1. rewrite (skip_whitespace_app _ [] Hw I). reflexivity.
 Qed.
 
-(* --- has_prepend --- *)
-
-Lemma has_prepend_cons b u : has_prepend (b :: u) = false ->
-  prepend_at (b :: u) = 0%nat /\ has_prepend u = false.
-Proof.
-  cbn [has_prepend]. intro H. apply orb_false_iff in H. destruct H as [H1 H2]. split; [|exact H2].
-  apply negb_false_iff in H1. apply Nat.eqb_eq in H1. exact H1.
-Qed.
-
-Lemma has_prepend_app a b : has_prepend (a ++ b) = false -> has_prepend b = false.
-Proof.
-  induction a as [|x a IH]; simpl; [tauto|]. intro H. apply orb_false_iff in H. apply IH. apply H.
-Qed.
-
-(* --- scanString on a well-formed string body without Prepend code points --- *)
+(* --- scanString on a well-formed string body --- *)
 
 (* a byte that the loop treats by its default case *)
 Definition plain (b : Z) : Prop := b <> 92 /\ b <> 34 /\ 32 <= b.
 
-Lemma loop_plain b u esc : plain b -> prepend_at (b :: u) = 0%nat ->
-  scan_string_loop (b :: u) esc 0%nat false =
-  let (t, r) := scan_string_loop u false 0%nat false in (b :: t, r).
+Lemma loop_plain b u esc : plain b ->
+  scan_string_loop (b :: u) esc = let (t, r) := scan_string_loop u false in (b :: t, r).
 Proof.
-  intros [H1 [H2 H3]] Hp. cbn [scan_string_loop]. rewrite Hp. cbn [andb negb Nat.eqb].
+  intros [H1 [H2 H3]]. cbn [scan_string_loop].
   replace (b =? 92) with false by (symmetry; apply Z.eqb_neq; exact H1).
   replace (b =? 34) with false by (symmetry; apply Z.eqb_neq; exact H2).
   replace (b <? 32) with false by (symmetry; apply Z.ltb_ge; exact H3).
   reflexivity.
 Qed.
 
-Lemma loop_plain_list pre : forall u esc, pre <> [] -> Forall plain pre -> has_prepend (pre ++ u) = false ->
-  scan_string_loop (pre ++ u) esc 0%nat false =
-  let (t, r) := scan_string_loop u false 0%nat false in (pre ++ t, r).
+Lemma loop_plain_list pre : forall u esc, pre <> [] -> Forall plain pre ->
+  scan_string_loop (pre ++ u) esc = let (t, r) := scan_string_loop u false in (pre ++ t, r).
 Proof.
-  induction pre as [|b pre IH]; intros u esc Hne Hpl Hp; [congruence|].
+  induction pre as [|b pre IH]; intros u esc Hne Hpl; [congruence|].
   inversion Hpl as [|? ? Hb Hpre]; subst. cbn [app] in *.
-  destruct (has_prepend_cons _ _ Hp) as [P1 P2].
-  rewrite (loop_plain _ _ _ Hb P1).
+  rewrite (loop_plain _ _ _ Hb).
   destruct pre as [|b' pre'].
   - cbn [app]. reflexivity.
   - rewrite (IH u false) by (try discriminate; assumption).
-    destruct (scan_string_loop u false 0%nat false) as [t r]. reflexivity.
+    destruct (scan_string_loop u false) as [t r]. reflexivity.
 Qed.
 
-Lemma loop_backslash u : prepend_at (92 :: u) = 0%nat ->
-  scan_string_loop (92 :: u) false 0%nat false =
-  let (t, r) := scan_string_loop u true 0%nat false in (92 :: t, r).
-Proof.
-  intro Hp. cbn [scan_string_loop]. rewrite Hp. cbn [andb negb Nat.eqb].
-  replace (92 =? 92) with true by reflexivity. reflexivity.
-Qed.
+Lemma loop_backslash u :
+  scan_string_loop (92 :: u) false = let (t, r) := scan_string_loop u true in (92 :: t, r).
+Proof. cbn [scan_string_loop]. replace (92 =? 92) with true by reflexivity. reflexivity. Qed.
 
-Lemma loop_escape c u : esc_letter c -> has_prepend (92 :: c :: u) = false ->
-  scan_string_loop (92 :: c :: u) false 0%nat false =
-  let (t, r) := scan_string_loop u false 0%nat false in (92 :: c :: t, r).
+Lemma loop_escaped c u : esc_letter c ->
+  scan_string_loop (c :: u) true = let (t, r) := scan_string_loop u false in (c :: t, r).
 Proof.
-  intros Hc Hp. destruct (has_prepend_cons _ _ Hp) as [P1 P2].
-  destruct (has_prepend_cons _ _ P2) as [P3 P4].
-  cbn [scan_string_loop]. rewrite P1. cbn [andb negb Nat.eqb].
-  replace (92 =? 92) with true by reflexivity. cbn [negb].
-  destruct (Z.eq_dec c 92) as [->|N92].
-  { cbn [scan_string_loop]. rewrite P3. cbn [andb negb Nat.eqb].
-    replace (92 =? 92) with true by reflexivity. cbn [negb].
-    destruct (scan_string_loop u false 0%nat false) as [t r]. reflexivity. }
+  intro Hc. destruct (Z.eq_dec c 92) as [->|N92].
+  { cbn [scan_string_loop]. replace (92 =? 92) with true by reflexivity. reflexivity. }
   destruct (Z.eq_dec c 34) as [->|N34].
-  { cbn [scan_string_loop]. rewrite P3. cbn [andb negb Nat.eqb].
-    replace (34 =? 92) with false by reflexivity. replace (34 =? 34) with true by reflexivity.
-    destruct (scan_string_loop u false 0%nat false) as [t r]. reflexivity. }
-  replace (c =? 92) with false by (symmetry; apply Z.eqb_neq; exact N92).
-  replace (c =? 34) with false by (symmetry; apply Z.eqb_neq; exact N34).
-  replace (c <? 32) with false by (symmetry; apply Z.ltb_ge; unfold esc_letter in Hc; lia).
-  rewrite P3. cbn [negb Nat.eqb].
-  destruct (scan_string_loop u false 0%nat false) as [t r]. reflexivity.
+  { cbn [scan_string_loop]. replace (34 =? 92) with false by reflexivity.
+    replace (34 =? 34) with true by reflexivity. reflexivity. }
+  apply loop_plain. unfold plain. unfold esc_letter in Hc. lia.
+Qed.
+
+Lemma loop_escape c u : esc_letter c ->
+  scan_string_loop (92 :: c :: u) false = let (t, r) := scan_string_loop u false in (92 :: c :: t, r).
+Proof.
+  intro Hc. rewrite loop_backslash. rewrite (loop_escaped _ _ Hc).
+  destruct (scan_string_loop u false) as [t r]. reflexivity.
 Qed.
 
 Lemma Utf8Multi_plain bs : Utf8Multi bs -> Forall plain bs /\ bs <> [].
@@ -517,33 +486,27 @@ Proof. unfold hexdig, plain. lia. Qed.
 
 Lemma scan_string_items items rest :
   Forall item_ok items ->
-  has_prepend (flat_map item_bytes items ++ 34 :: rest) = false ->
-  scan_string_loop (flat_map item_bytes items ++ 34 :: rest) false 0%nat false =
+  scan_string_loop (flat_map item_bytes items ++ 34 :: rest) false =
   (flat_map item_bytes items ++ [34], rest).
 Proof.
-  induction 1 as [|i items Hi His IH]; intro Hp.
-  - cbn [flat_map app scan_string_loop]. destruct (has_prepend_cons _ _ Hp) as [P1 _]. rewrite P1.
-    cbn [andb negb Nat.eqb]. replace (34 =? 92) with false by reflexivity.
+  induction 1 as [|i items Hi His IH].
+  - cbn [flat_map app scan_string_loop]. replace (34 =? 92) with false by reflexivity.
     replace (34 =? 34) with true by reflexivity. reflexivity.
   - cbn [flat_map] in *. rewrite <- app_assoc in *.
-    assert (Hp' : has_prepend (flat_map item_bytes items ++ 34 :: rest) = false)
-      by (eapply has_prepend_app; exact Hp).
-    specialize (IH Hp').
     destruct i as [bs|c|h1 h2 h3 h4]; cbn [item_bytes] in *; simpl in Hi.
     + destruct Hi as [b Hb H34 H92|bs Hm].
-      * rewrite (loop_plain_list [b]); [|discriminate| |exact Hp].
+      * rewrite (loop_plain_list [b]); [|discriminate|].
         -- rewrite IH. rewrite <- ?app_assoc. reflexivity.
         -- repeat constructor; lia.
       * destruct (Utf8Multi_plain _ Hm) as [Hpl Hne].
-        rewrite (loop_plain_list bs); [|exact Hne|exact Hpl|exact Hp].
+        rewrite (loop_plain_list bs); [|exact Hne|exact Hpl].
         rewrite IH. rewrite <- ?app_assoc. reflexivity.
-    + cbn [app] in *. rewrite (loop_escape _ _ Hi Hp). rewrite IH. rewrite <- ?app_assoc. reflexivity.
+    + cbn [app] in *. rewrite (loop_escape _ _ Hi). rewrite IH. rewrite <- ?app_assoc. reflexivity.
     + cbn [app] in *. destruct Hi as [G1 [G2 [G3 G4]]].
-      destruct (has_prepend_cons _ _ Hp) as [P1 P2].
-      rewrite (loop_backslash _ P1).
+      rewrite loop_backslash.
       change (117 :: h1 :: h2 :: h3 :: h4 :: flat_map item_bytes items ++ 34 :: rest)
         with ([117; h1; h2; h3; h4] ++ flat_map item_bytes items ++ 34 :: rest) in *.
-      rewrite (loop_plain_list [117; h1; h2; h3; h4]); [|discriminate| |exact P2].
+      rewrite (loop_plain_list [117; h1; h2; h3; h4]); [|discriminate|].
       * rewrite IH. rewrite <- ?app_assoc. reflexivity.
       * repeat constructor; try (apply hexdig_plain; assumption); lia.
 Qed.
@@ -555,13 +518,12 @@ Proof. intro H. unfold next_token. rewrite H. reflexivity. Qed.
 
 Lemma next_token_string items rest :
   Forall item_ok items ->
-  has_prepend (flat_map item_bytes items ++ 34 :: rest) = false ->
   next_token ((34 :: flat_map item_bytes items ++ [34]) ++ rest)
   = Some (TString, 34 :: flat_map item_bytes items ++ [34], rest).
 Proof.
-  intros Hi Hp. cbn [app next_token]. replace (punct_type 34) with (@None jtype) by reflexivity.
+  intros Hi. cbn [app next_token]. replace (punct_type 34) with (@None jtype) by reflexivity.
   replace (34 =? 34) with true by reflexivity. unfold scan_string.
-  rewrite <- app_assoc. cbn [app]. rewrite (scan_string_items _ _ Hi Hp). reflexivity.
+  rewrite <- app_assoc. cbn [app]. rewrite (scan_string_items _ _ Hi). reflexivity.
 Qed.
 
 Lemma next_token_number b nb rest :
